@@ -319,7 +319,11 @@ impl SegmentedLog {
             let filename = segment_filename::format(&self.filename_prefix, oldest_segment.id);
             #[cfg(nomt_verif)]
             crate::verif_hook::begin_path(crate::verif_hook::Kind::Unlink, &self.root_dir_path.join(&filename), "seglog.prune_oldest")?;
+            #[cfg(nomt_verif)]
+            let verif_unlinked = self.root_dir_path.join(&filename);
             fs::remove_file(self.root_dir_path.join(filename))?;
+            #[cfg(nomt_verif)]
+            crate::verif_hook::end_path(crate::verif_hook::Kind::Unlink, &verif_unlinked, "seglog.prune_oldest");
 
             // Remove the segment from the in-memory list preserving the order.
             self.segments.remove(0);
@@ -372,7 +376,11 @@ impl SegmentedLog {
                 segment_filename::format(&self.filename_prefix, self.segments.last().unwrap().id);
             #[cfg(nomt_verif)]
             crate::verif_hook::begin_path(crate::verif_hook::Kind::Unlink, &self.root_dir_path.join(&filename), "seglog.prune_recent")?;
+            #[cfg(nomt_verif)]
+            let verif_unlinked = self.root_dir_path.join(&filename);
             fs::remove_file(self.root_dir_path.join(filename))?;
+            #[cfg(nomt_verif)]
+            crate::verif_hook::end_path(crate::verif_hook::Kind::Unlink, &verif_unlinked, "seglog.prune_recent");
             self.segments.pop();
         }
         #[cfg(nomt_verif)]
@@ -409,6 +417,8 @@ impl SegmentedLog {
             #[cfg(nomt_verif)]
             crate::verif_hook::begin_path(crate::verif_hook::Kind::Unlink, &segment.path, "seglog.remove_all")?;
             fs::remove_file(&segment.path)?;
+            #[cfg(nomt_verif)]
+            crate::verif_hook::end_path(crate::verif_hook::Kind::Unlink, &segment.path, "seglog.remove_all");
         }
         self.segments.clear();
         Ok(())
@@ -626,7 +636,11 @@ impl Recovery {
         for segment in nonlive_segments {
             #[cfg(nomt_verif)]
             crate::verif_hook::begin_path(crate::verif_hook::Kind::Unlink, &segment.path, "seglog.open.remove_nonlive")?;
+            #[cfg(nomt_verif)]
+            let verif_unlinked = segment.path.clone();
             fs::remove_file(segment.path)?;
+            #[cfg(nomt_verif)]
+            crate::verif_hook::end_path(crate::verif_hook::Kind::Unlink, &verif_unlinked, "seglog.open.remove_nonlive");
         }
         Ok(live_segments)
     }
